@@ -15,7 +15,7 @@ VERIF = gen.VERIF
 CACHE = os.path.join(VERIF, '.cache')
 
 VERIF_FAIL_PATTERNS = [
-    'postcondition not satisfied', 'precondition not met', 'precondition not satisfied', 'assertion failed',
+    'postcondition not satisfied', 'precondition not met', 'precondition not satisfied', 'requires not satisfied', 'assertion failed',
     'loop invariant not satisfied', 'invariant not satisfied', 'possible arithmetic underflow/overflow',
     'possible division by zero', 'could not prove termination', 'decreases not satisfied',
     'possible bit shift underflow/overflow', 'cannot show invariant', 'constructed value may fail',
@@ -196,7 +196,10 @@ def classify(res):
             props = list(idx.fn_props.get(fn, [])) if safety else list(idx.fn_sem.get(fn, []))
         f = dict(msg=msg, labels=labels, fn=fn, props=props, line=line, rendered=rendered, kind=kind)
         if kind == 'obligation' and fn is None and not labels:
-            f['kind'] = 'machinery'  # failure inside the ghost library / prelude
+            # a proof obligation failed in code that carries no contract section: a function the specs do not know (added by
+            # a change) or a lemma of the ghost library. The file was processed, so the other functions' verdicts stand;
+            # this one is reported as "needs contract" (undecided), never as a violation.
+            f['kind'] = 'unattributed'
         failures.append(f)
     res['failures'] = failures
     # function-level results
